@@ -393,8 +393,8 @@ def r13e(run):
         shapes = {}
         for final, nd, flag, fmode, omode, sv, dv in disagreements:
             kind = "mode-string" if isinstance(flag, (str, list, tuple)) else repr(flag)
-            inside = "inside" if (fmode and omode in fmode) else "outside" if fmode else "no field mode"
-            hit = "listed" if isinstance(flag, (str, list, tuple)) and omode in flag else "not listed"
+            inside = "inside" if (fmode and omode is not None and omode in fmode) else "outside" if fmode else "no field mode"
+            hit = "listed" if isinstance(flag, (str, list, tuple)) and omode is not None and omode in flag else "not listed"
             shapes.setdefault((kind, inside, hit, sv, dv), []).append((final, nd, flag, fmode, omode))
         run.ob("R13e", fs, f"{static} agrees with {dynamic} on every value-independent declaration", not shapes,
                detail=f"{len(disagreements)} disagreeing points")
